@@ -68,7 +68,9 @@ fn case_rot(a: &[i64]) -> String {
 /// publisher that still holds (n, init+n)
 fn case_rot_at(a: &[i64], late: bool) -> String {
     let (init, n0) = (a[0] as i32, a[1] as i32);
-    let n = if late { n0 + 1 } else { n0 };
+    // a late caller is k >= 1 rotations behind (sixth argument, default 1)
+    let k = if a.len() > 5 { a[5] as i32 } else { 1 };
+    let n = if late { n0 + k } else { n0 };
     let offs = [a[2], a[3], a[4]];
     let mem = AlignedBuffer::with_capacity(lbd::LOG_META_DATA_LENGTH);
     let md = AtomicBuffer::from_aligned(&mem);
